@@ -36,7 +36,9 @@ KindL == {Blk(kd, al, h, 1, bu, 1, a, 1, 0, b, t1, 400) : kd \in FCR, al \in {FA
 \* (no two different temperature pairs have the same block average: the copied candidate is decided by a float comparison)
 CylS  == {Blk(kd, FALSE, h, 1, bu, 1, a, 1, 1, 2, t1, 300) : kd \in FR, h \in {1, 3}, bu \in {2}, a \in {0, 2}, t1 \in {400, 700}}
 CylM  == {Blk(kd, FALSE, h, 1, a + 1, 1, a, 1, 1, 2, t1, t2) : kd \in FR, h \in {1, 3}, a \in {0, 1, 2}, t1 \in {400, 700}, t2 \in {300, 520}}
+CylQ  == {Blk(kd, FALSE, h, 1, a + 1, 1, a, 1, 1, 2, t1, t2) : kd \in FR, h \in {1, 3}, a \in {0, 2}, t1 \in {400, 700}, t2 \in {300, 520}}
 CylL  == {Blk(kd, FALSE, h, 1, a + 1, 1, a, 1, 1, 2, t1, t2) : kd \in FR, h \in {1, 2, 3}, a \in {0, 1, 2}, t1 \in {400, 700}, t2 \in {300, 520}}
+CylTriX == {Blk(kd, FALSE, 1 + a, 1, a, 1, a, 1, 1, 2, 400 + 100 * a, 300) : kd \in FR, a \in {0, 2}}
 CylTri == {Blk(kd, FALSE, h, 1, a, 1, a, 1, 1, 2, 400 + 100 * a, 300) : kd \in FR, h \in {1, 3}, a \in {0, 2}}
 \* blocks that carry a lumped-fission-product collection (what depletion models put on fuel blocks)
 LfpS  == {[Blk("fuel", FALSE, h, 1, bu, 1, 1, 1, 1, 1, 600, 400) EXCEPT !.lfp = l] : h \in {1, 2}, bu \in {0, 3}, l \in BOOLEAN}
@@ -72,7 +74,7 @@ OptsFor(f) == CASE f = "dens" -> OptsDens [] f = "temp" -> OptsTemp [] f = "burn
 \* laws, quick: small domains, pairs (triples for "tri")
 Extra(f) == CASE f = "cyl3" -> CylTri [] f = "lfp" -> LfpS [] f = "ord" -> OrdS [] f = "perm" -> PermS
 DomMcQ(f) == CASE f = "dens" -> DensX [] f = "temp" -> TempS [] f = "burn" -> BurnX [] f = "kind" -> KindX [] f = "tri" -> TriX
-               [] f = "cyl" -> CylS [] OTHER -> Extra(f)
+               [] f = "cyl" -> CylS [] f = "cyl3" -> CylTriX [] OTHER -> Extra(f)
 MaxMcQ(f) == IF f \in {"tri", "cyl3"} THEN 3 ELSE 2
 \* laws, thorough: medium domains; triples of the small ones would be 10^5 states each, so "tri" carries the triples/quadruples
 DomMcT(f) == CASE f = "dens" -> DensM [] f = "temp" -> TempM [] f = "burn" -> BurnM [] f = "kind" -> KindM [] f = "tri" -> TriS
@@ -80,7 +82,7 @@ DomMcT(f) == CASE f = "dens" -> DensM [] f = "temp" -> TempM [] f = "burn" -> Bu
 MaxMcT(f) == IF f = "tri" THEN 4 ELSE IF f = "cyl3" THEN 4 ELSE 2
 \* cases for the real code, quick / thorough
 DomEmQ(f) == CASE f = "dens" -> DensM [] f = "temp" -> TempM [] f = "burn" -> BurnS [] f = "kind" -> KindS [] f = "tri" -> TriM
-               [] f = "cyl" -> CylM [] OTHER -> Extra(f)
+               [] f = "cyl" -> CylQ [] OTHER -> Extra(f)
 MaxEmQ(f) == IF f \in {"tri", "cyl3"} THEN 3 ELSE 2
 DomEmT(f) == CASE f = "dens" -> DensL [] f = "temp" -> TempL [] f = "burn" -> BurnL [] f = "kind" -> KindL [] f = "tri" -> TriS
                [] f = "cyl" -> CylL [] OTHER -> Extra(f)
